@@ -9,13 +9,22 @@ Three layers of correspondence (K), all executing the REAL stream thread under t
                                            (types, vdim, mlen, user types): decoder (C04 model) ∘ fan-out
  C  sessions (extra_checks): connect to the reference device (channels possibly enabled already), both library
                                            threads running, frames in flight at subscribe / unsubscribe / enable-change /
-                                           stop;start time, stalled stream thread, byte-identical consecutive frames; the
+                                           stop;start time, stalled stream thread, byte-identical consecutive frames, bursts
+                                           of > 2000 frames (more than any plausible bound on the stream-frame queue), a
+                                           device that streams a newly enabled channel BEFORE it acknowledges the request; the
                                            linearised trace of what happened (arrivals at `_q_stream.put`, iterations at
                                            `_q_stream.get`, calls) is replayed through the model (`fan sys`, events I/T) and
-                                           the final queue contents are compared.
+                                           the final queue contents are compared.  The trace is OBSERVED: method wrappers on
+                                           the library's own queue object and on `ch_is_enabled`; no library object is
+                                           replaced, threads are told apart by task identity (application thread vs the
+                                           rest), never by name.
+ D  schedules (extra_checks, both tiers): a second application thread unsubscribes / subscribes while the stream thread is
+                                           delivering, pre-emption at every lock / queue / link operation (`concurrent_unsub`),
+                                           judged at the subscriber queues AFTER `stream_unsub` returned.
 The oracle (O) is a per-queue reference written from the property text; for sessions it judges what the device
-SENT against what the queues RECEIVED (must / may / must-not per sample, by virtual send, call and quiesce
-times only — no library internals).
+SENT against what the queues RECEIVED (must / may / must-not per sample, by the order of sends, calls, the device's
+"request applied" moments and quiesce times only — no library internals).  Text samples that are not valid UTF-8 are
+accepted in any rendering (the property does not say how they are shown).
 
 Event language of the lines: see lean/NxsModel/Driver/Fanout.lean.  SCHEDULE of layers A/B: the application
 thread runs without interruption except in `i` (virtual sleep: the stream thread drains `_q_stream` or dies) and `P`
@@ -116,12 +125,48 @@ def frame_samples(case, ev):
     return out
 
 
+class _AnyStr:
+    """compares equal to every str (the rendering of undecodable text is the library's choice)"""
+    def __eq__(self, other):
+        return isinstance(other, (str, _AnyStr))
+
+    def __ne__(self, other):
+        return not self.__eq__(other)
+
+    def __hash__(self):
+        return 0
+
+    def __repr__(self):
+        return "<any str>"
+
+
+ANY_STR = _AnyStr()
+
+
+def text_sequence(case):
+    """{chan: [(str the sample decodes to (undecodable bytes replaced), raw length if the wire bytes are NOT valid UTF-8
+    else None)]} of the single-atom CHAR samples of the case's frames, in wire order.  The model prints undecodable text
+    as `t~<len>` (like C04's glue does: the replacement text is not part of the model)"""
+    out = {}
+    for ev in case["events"]:
+        if ev[0] != "w":
+            continue
+        parsed = sg.ref_parse(case["layout"], case["user"], common.unhex(ev[1:]))
+        for chan, vals, _ in parsed or []:
+            ty = case["layout"][chan][0]
+            if sg.dtype_of(ty, case["user"]) == sg.CHAR and len(vals) == 1:
+                raw = bytes(vals[0][1])
+                out.setdefault(chan, []).append((raw.decode("utf-8", "replace"), None if sg.valid_utf8(raw) else len(raw)))
+    return out
+
+
 def ref_value(code, raw, ty, user, natoms):
     """the python value a sample atom stands for, straight from the wire bytes (independent of nxslib)"""
     dt = sg.dtype_of(ty, user)
     frac = sg.frac_of(ty)
     if dt == sg.CHAR and natoms == 1:
-        return raw.decode("utf-8")
+        # text that is not valid UTF-8: the property does not say how it is rendered -> any str is accepted
+        return raw.decode("utf-8") if sg.valid_utf8(raw) else ANY_STR
     if code in "BHIQbhiq":
         r = int.from_bytes(raw, "little", signed=code.islower())
         return r / (1 << frac) if frac else r
@@ -224,8 +269,9 @@ def drive(case, events=None):
     return res
 
 
-def canon_item(item, ty, vdim, mlen, user):
-    """delivered (data, meta) -> the model's `[v;v],[m;m]` (values rendered from the python objects alone)"""
+def canon_item(item, ty, vdim, mlen, user, bad_len=None):
+    """delivered (data, meta) -> the model's `[v;v],[m;m]` (values rendered from the python objects alone; `bad_len`:
+    raw length when this sample's text was not valid UTF-8 on the wire -> `t~<len>`)"""
     data, meta = item
     atoms = sg.sample_atoms(ty, vdim, user)
     dt = sg.dtype_of(ty, user)
@@ -234,7 +280,10 @@ def canon_item(item, ty, vdim, mlen, user):
     for j, v in enumerate(data):
         code = atoms[j][0] if j < len(atoms) else "?"
         if dt == sg.CHAR and len(data) == 1:
-            vals.append("t:" + sg.hexs(v.encode("utf-8")) if isinstance(v, str) else f"t!:{v!r}")
+            if isinstance(v, str) and bad_len is not None:
+                vals.append(f"t~{bad_len}")
+            else:
+                vals.append("t:" + sg.hexs(v.encode("utf-8")) if isinstance(v, str) else f"t!:{v!r}")
         elif code in "BHIQbhiq":
             if frac:
                 raw = round(v * (1 << frac)) if isinstance(v, float) else None
@@ -255,12 +304,26 @@ def canon_item(item, ty, vdim, mlen, user):
 def fmt(case, res):
     layout, user = case["layout"], case["user"]
     qs = []
+    texts = text_sequence(case) if case["kind"] == "wire" else {}
     for i, gs in enumerate(res["groups"]):
         if case["kind"] == "sys":
             qs.append(f"q{i}=" + "/".join(".".join(str(int(it[0][0])) for it in g) for g in gs))
         else:
             c = res["qchan"][i]
-            qs.append(f"q{i}=" + "/".join("|".join(canon_item(it, *layout[c], user) for it in g) for g in gs))
+            seq, pos = texts.get(c, []), 0
+            parts = []
+            for g in gs:
+                its = []
+                for it in g:
+                    bad_len = None
+                    if seq and len(it[0]) == 1:
+                        # in-order match of the delivered text against the channel's samples on the wire
+                        j = next((j for j in range(pos, len(seq)) if seq[j][0] == it[0][0]), None)
+                        if j is not None:
+                            bad_len, pos = seq[j][1], j + 1
+                    its.append(canon_item(it, *layout[c], user, bad_len))
+                parts.append("|".join(its))
+            qs.append(f"q{i}=" + "/".join(parts))
     return ("ok " + " ".join(qs) + f" ovf={res['ovf']} subs=" + ",".join(".".join(map(str, l)) for l in res["subs"])
             + f" dead={int(res['dead'])} started={int(res['started'])} qlen={res['qlen']} errs="
             + ".".join(str(i) for i, _ in res["errs"]))
@@ -427,9 +490,14 @@ def gen_events(rng, n, init, length, values, wire=None):
 
 
 def gen_wire_sample(rng, layout, user, chan):
-    """a sample whose values survive a python round trip bit for bit (no NaN / inf, valid UTF-8)"""
+    """a sample whose values survive a python round trip bit for bit (no NaN / inf); text also NUL-padded / not valid UTF-8"""
     c, vals, meta = gen.gen_sample(rng, layout, user, chan, for_encode=True)
     out = []
+    ty, vdim, _ = layout[chan]
+    atoms = sg.sample_atoms(ty, vdim, user)
+    if sg.dtype_of(ty, user) == sg.CHAR and len(atoms) == 1 and rng.random() < 0.6:
+        # text as a device may send it: NUL padding, bytes that are not valid UTF-8 (rendered by the library as it likes)
+        vals = [gen.gen_atom_value(rng, atoms[0][0], atoms[0][1], sg.frac_of(ty), False, True)]
     for v in vals:
         if v[:2] == "f:" and (int(v[2:], 16) & 0x7f800000) == 0x7f800000:
             v = "f:" + format(rng.choice([0x3f800000, 0xc0490fdb, 0x00000001]), "08x")
@@ -459,7 +527,7 @@ def value_source(rng):
 def gen_session(rng, kind=None):
     """a session script (JSON-able dict)"""
     kind = kind or rng.choice(["mixed", "mixed", "mixed", "inflight", "enabled-at-connect", "stall", "identical", "restart",
-                               "badframe"])
+                               "badframe", "enable-race", "enable-race", "long"])
     n = rng.choice([1, 2, 2, 3, 5, 8])
     types = [rng.choice([2, 3, 4, 6, 7, 9, 10, 11, 12, 15]) for _ in range(n)]
     layout = [(t, rng.choice([1, 1, 2, 3]), rng.choice([0, 0, 1, 2, 4])) for t in types]
@@ -474,10 +542,10 @@ def gen_session(rng, kind=None):
     nq = 0
     started = False
 
-    def frames(k):
+    def frames(k, en=None):
         out = []
         for _ in range(k):
-            cs = [c for c in range(n) if dev_en[c]]
+            cs = [c for c in range(n) if (dev_en if en is None else en)[c]]
             if rng.random() < 0.12:
                 cs = list(range(n))          # a device that is slow to apply a disable: samples of disabled channels
             ns = rng.choice([0, 1, 1, 2, 3, 4]) if cs else 0
@@ -524,10 +592,15 @@ def gen_session(rng, kind=None):
             c = rng.randrange(n)
             wn = rng.random() < 0.7
             new[c] = not new[c]
+            if wn and started and new != dev_en and (kind == "enable-race" or rng.random() < 0.15):
+                # the device streams the new configuration between applying the request and acknowledging it
+                ev.append(["arm", frames(rng.choice([1, 1, 2, 3]), new)])
             ev.append(["en" if new[c] else "dis", [c], wn])
             if wn:
                 commit()
         elif r < 0.78:
+            if started and new != dev_en and (kind == "enable-race" or rng.random() < 0.15):
+                ev.append(["arm", frames(rng.choice([1, 1, 2, 3]), new)])
             ev.append(["write"])
             commit()
         elif r < 0.86 and kind in ("restart", "mixed", "inflight", "badframe"):
@@ -563,6 +636,18 @@ def gen_session(rng, kind=None):
         commit()
     ev.append(["frames", frames(2)])
     ev.append(["quiesce"])
+    if kind == "long":
+        # more frames in one go than any plausible bound on the stream-frame queue: nothing may be lost or reordered
+        cs = [c for c in range(n) if dev_en[c]]
+        if not cs:
+            cs = [rng.randrange(n)]
+            new[cs[0]] = True
+            ev.append(["en", cs, True])
+            commit()
+        if not any(e[0] == "sub" and e[1] in cs for e in ev):
+            ev.append(["sub", cs[0]])
+        ev.append(["burst", rng.choice([2050, 2200, 2600]), cs[:2], 1000])
+        ev.append(["quiesce"])
     return {"kind": kind, "layout": layout, "init": init, "flags": flags, "events": ev, "small": small}
 
 
@@ -575,8 +660,9 @@ def session_payload(layout, fr):
         code, size, frac = sg.STD[ty]
         data = []
         body += bytes([c])
+        mod = 100 if v < 100 else min(1 << (8 * size - 1), 1 << 20)     # long runs: values as distinct as the type allows
         for k in range(vdim):
-            x = (v + k) % 100
+            x = (v + k) % mod
             if code in "fd":
                 body += struct.pack("<" + code, float(x))
                 data.append(float(x))
@@ -593,6 +679,12 @@ def session_payload(layout, fr):
             meta = tuple(mb)
         smp.append((c, (tuple(data), meta)))
     return body, smp
+
+
+def burst_frames(e):
+    """["burst", count, [channels], base] -> count frames, frame i carrying one sample (value base + i) of every listed channel"""
+    _, count, chs, base = e
+    return [{"flags": 0, "smp": [[c, base + i] for c in chs]} for i in range(count)]
 
 
 def run_session(script, preempt_seed=None):
@@ -627,34 +719,60 @@ def run_session(script, preempt_seed=None):
                     vsim.vsleep(d)
                 return super().frame_stream_decode(frame, dev)
 
-        class RecQueue(vsim.VQueue):
-            def put(self, item, block=True, timeout=None):
-                k = next((j for j in range(matched[0], len(sent)) if sent[j]["payload"] == bytes(item.data)), None)
-                if k is not None:
-                    matched[0] = k + 1
-                item._c08_idx = k
-                log.append(("arrive", k))
-                super().put(item, block, timeout)
+        armed = []        # frames the device emits right after APPLYING the next enable request, before its ACK
 
-            def get(self, block=True, timeout=None):
-                item = super().get(block, timeout)
-                who = sim.cur.name if sim.cur is not None else "?"
-                log.append(("take" if who == "stream" else "drop", getattr(item, "_c08_idx", None)))
-                return item
+        def policy(dev, kind, req):
+            if kind == "enable" and armed:
+                # a device that starts emitting a newly enabled channel at once: apply, stream, then acknowledge
+                dev._apply_set(kind, req)
+                timeline.append(("applied", [bool(x) for x in dev.en], tick(), tick(), None))
+                for fr in armed.pop(0):
+                    payload, smp = session_payload(layout, fr)
+                    sent.append({"payload": payload, "smp": smp, "t": tick(), "vt": sim.now, "flags": fr["flags"]})
+                    dev._send(refdev.STREAM, payload)
+            return "ack"
 
         chans = [dict(en=bool(init[i]), type=ty, vdim=vdim, div=0, mlen=mlen, name=f"c{i}") for i, (ty, vdim, mlen) in enumerate(layout)]
-        dev = refdev.RefDevice(chans, flags=script["flags"])
+        dev = refdev.RefDevice(chans, flags=script["flags"], policy=policy)
         r = __import__("random").Random(script.get("chunk_seed", 0))
         link = refdev.make_link(sim, dev, chunker=(lambda k: r.randrange(1, k + 1)) if script.get("chunk_seed") else None)
         nx = NxscopeHandler(link, StallParser())
         comm = nx._comm
         nx.connect()
-        comm._q_stream = RecQueue()
+        main_task = sim.cur
+        at_connect = set(map(id, sim.live_tasks()))      # the library's threads that exist before any stream_start
+        # K only: the linearisation is OBSERVED on the library's own objects (method wrappers on the existing stream-frame
+        # queue and on `ch_is_enabled`); nothing the library created is replaced.  The oracle never looks at this log.
+        sq = getattr(comm, "_q_stream", None)
+        traced = sq is not None and callable(getattr(sq, "put", None)) and callable(getattr(sq, "get", None))
+        if traced:
+            lib_put, lib_get = sq.put, sq.get
+
+            def rec_put(item, *a, **kw):
+                k = next((j for j in range(matched[0], len(sent)) if sent[j]["payload"] == bytes(item.data)), None)
+                if k is not None:
+                    matched[0] = k + 1
+                try:
+                    item._c08_idx = k
+                except Exception:
+                    pass
+                log.append(("arrive", k))
+                return lib_put(item, *a, **kw)
+
+            def rec_get(*a, **kw):
+                item = lib_get(*a, **kw)
+                # whoever takes a frame and is not the application thread is the stream thread (whatever its name)
+                log.append(("drop" if sim.cur is main_task else "take", getattr(item, "_c08_idx", None)))
+                return item
+            try:
+                sq.put, sq.get = rec_put, rec_get
+            except Exception:
+                traced = False
         real_chk = comm.ch_is_enabled
 
         def chk(chan):
             v = real_chk(chan)
-            if sim.cur is not None and sim.cur.name == "stream":
+            if sim.cur is not None and sim.cur is not main_task:
                 log.append(("chk", chan, v))
             return v
         comm.ch_is_enabled = chk
@@ -673,11 +791,13 @@ def run_session(script, preempt_seed=None):
                 for x in rec():
                     log.append(x)
             timeline.append((kind, detail, t0, tick(), err))
+            if kind in ("commit", "start"):
+                armed.clear()         # an arm not consumed by this configuration write (nothing to request) is void
 
         for e in script["events"]:
             k = e[0]
-            if k == "frames":
-                for fr in e[1]:
+            if k in ("frames", "burst"):
+                for fr in (e[1] if k == "frames" else burst_frames(e)):
                     payload, smp = session_payload(layout, fr)
                     sent.append({"payload": payload, "smp": smp, "t": tick(), "vt": sim.now, "flags": fr["flags"]})
                     dev._send(refdev.STREAM, payload)
@@ -720,6 +840,8 @@ def run_session(script, preempt_seed=None):
                     started = False
                 else:
                     call("stop-again", None, nx.stream_stop)
+            elif k == "arm":
+                armed.append(e[1])
             elif k == "stall":
                 StallParser.stall_next = e[1]
             elif k == "sleep":
@@ -736,11 +858,13 @@ def run_session(script, preempt_seed=None):
             while not q.empty():
                 items += [(tuple(x.data), tuple(x.meta)) for x in q.get_nowait()]
             delivered.append(items)
-        live = [t.name for t in sim.live_tasks()]
-        out.update(log=list(log), timeline=timeline, sent=sent, delivered=delivered, qchan=qchan,
-                   qlen=comm._q_stream.qsize(), started=started, dead=bool(nx._stream_started and not nx._thrd.thread_is_alive()),
+        # threads started after connect (= by stream_start), found without relying on their names
+        later = [t for t in sim.live_tasks() if id(t) not in at_connect]
+        out.update(log=list(log) if traced else None, timeline=timeline, sent=sent, delivered=delivered, qchan=qchan,
+                   qlen=sq.qsize() if traced and callable(getattr(sq, "qsize", None)) else None, started=started,
+                   dead=bool(nx._stream_started and not nx._thrd.thread_is_alive()),
                    subs=[[queues.index(q) for q in l if q in queues] for l in nx._sub_q],
-                   stream_threads=live.count("stream"))
+                   stream_threads=len(later), unused_arms=len(armed))
         nx.disconnect()
         StallParser.stall_next = 0.0
 
@@ -828,7 +952,10 @@ def session_oracle(script, res):
     n = len(script["layout"])
     bad_t = min([fr["t"] for fr in res["sent"] if fr["smp"] is None], default=float("inf"))
     if res["errors"] and bad_t == float("inf"):
-        return {"key": "stream-thread-raises", "what": f"a library thread ended with an exception: {res['errors']}",
+        nd = [len(x) for x in res["delivered"]]
+        return {"key": "stream-thread-raises", "what": f"a library thread ended with an exception: {res['errors']} while the device "
+                f"sent only well-formed stream frames (flags, [(channel, sample)]): "
+                f"{[(fr['flags'], [(c, it[0]) for c, it in fr['smp']]) for fr in res['sent']][:16]}; samples received per queue {nd}",
                 "expected": "no exception", "observed": str(res["errors"])}
     for kind, detail, t0, t1, err in tl:
         if err:
@@ -846,13 +973,23 @@ def session_oracle(script, res):
             s0 = None
     if s0 is not None:
         started_iv.append((s0, float("inf")))
-    commits = [(t0, t1, vec) for kind, vec, t0, t1, _ in tl if kind in ("commit", "start")]
+    # a configuration write: (begin, end, requested vector, step at which the DEVICE had applied it if the device told us)
+    applied = [(t0, vec) for kind, vec, t0, _, _ in tl if kind == "applied"]
+    commits = []
+    for kind, vec, t0, t1, _ in tl:
+        if kind in ("commit", "start"):
+            ta = next((ta for ta, av in applied if t0 < ta < t1 and [bool(x) for x in av] == [bool(x) for x in vec]), None)
+            commits.append((t0, t1, vec, ta))
 
     def enabled_state(c, a, b):
-        """True / False if channel c is certainly enabled / disabled during all of [a, b], else None"""
+        """True / False if channel c is certainly enabled / disabled during all of [a, b], else None.  A channel the client
+        asked to ENABLE counts as enabled from the moment the device has applied the request (a device emits samples of
+        a channel only after that: they are samples of a channel the client has enabled); a disable counts from the
+        return of the call"""
         v = bool(script["init"][c])
-        for t0, t1, vec in commits:
-            if t1 <= a:
+        for t0, t1, vec, ta in commits:
+            sure = ta if (ta is not None and bool(vec[c])) else t1
+            if sure <= a:
                 v = bool(vec[c])
             elif t0 <= b:
                 if bool(vec[c]) != v:
@@ -888,29 +1025,53 @@ def session_oracle(script, res):
                         lab = "may"
                 cand.append((lab, item))
         got = res["delivered"][q]
-        # increasing matching of `got` into `cand`: every must used, no not used, equal values
-        m = len(cand)
-        prev = [True] + [False] * m
-        for j in range(1, m + 1):
-            prev[j] = prev[j - 1] and cand[j - 1][0] != "must"
-        for i in range(1, len(got) + 1):
-            curr = [False] * (m + 1)
+        musts = [it for lab, it in cand if lab == "must"]
+        # increasing matching of `got` into `cand`: every must used, no not used, equal values.  Certain ends first (a
+        # 'must' at either end can only be matched by the received sample at that end): long runs stay linear
+        fits = True
+        full_cand, full_got = cand, got
+        cand, got = list(cand), list(got)
+        lo_c = lo_g = 0
+        while fits and lo_c < len(cand) and cand[lo_c][0] != "may":
+            if cand[lo_c][0] == "must":
+                fits = lo_g < len(got) and got[lo_g] == cand[lo_c][1]
+                lo_g += 1
+            lo_c += 1
+        cand, got = cand[lo_c:], got[min(lo_g, len(got)):]
+        while fits and cand and cand[-1][0] != "may":
+            if cand[-1][0] == "must":
+                fits = bool(got) and got[-1] == cand[-1][1]
+                if got:
+                    got.pop()
+            cand.pop()
+        if fits:
+            m = len(cand)
+            prev = [True] + [False] * m
             for j in range(1, m + 1):
-                ok = curr[j - 1] and cand[j - 1][0] != "must"
-                if not ok and prev[j - 1] and cand[j - 1][0] != "not" and cand[j - 1][1] == got[i - 1]:
-                    ok = True
-                curr[j] = ok
-            prev = curr
-        if not prev[m]:
-            musts = [it for lab, it in cand if lab == "must"]
+                prev[j] = prev[j - 1] and cand[j - 1][0] != "must"
+            for i in range(1, len(got) + 1):
+                curr = [False] * (m + 1)
+                for j in range(1, m + 1):
+                    ok = curr[j - 1] and cand[j - 1][0] != "must"
+                    if not ok and prev[j - 1] and cand[j - 1][0] != "not" and cand[j - 1][1] == got[i - 1]:
+                        ok = True
+                    curr[j] = ok
+                prev = curr
+            fits = prev[m]
+        cand, got = full_cand, full_got
+        if not fits:
+            p = next((i for i in range(min(len(got), len(musts))) if got[i] != musts[i]), min(len(got), len(musts)))
+            lo = max(0, p - 3)
             return {"key": "session-delivery",
                     "what": f"queue {q} (channel {c}, subscribed at step {se}"
                             + (f", unsubscribed at step {ub}" if ub != float("inf") else "")
-                            + f") received {len(got)} samples {got[:40]}; the device sent for that channel "
-                            f"{[(lab, it) for lab, it in cand][:60]} (must = sent, subscribed, enabled and processed-by-quiesce "
-                            f"for certain; not = certainly not subscribed / not enabled): there is no in-order, duplicate-free "
-                            f"assignment of the received samples to the sent ones that uses every 'must' ({len(musts)}) and no 'not'",
-                    "expected": str(musts)[:500], "observed": str(got)[:500]}
+                            + f") received {len(got)} samples; the device sent {len(cand)} samples for that channel, {len(musts)} of "
+                            f"them 'must' (sent, subscribed, enabled and processed-by-quiesce for certain; 'not' = certainly not "
+                            f"subscribed / not enabled): there is no in-order, duplicate-free assignment of the received samples "
+                            f"to the sent ones that uses every 'must' and no 'not'.  First deviation from the certain run at "
+                            f"position {p}: received {got[lo:p + 4]}, certain {musts[lo:p + 4]}.  Received (head) {got[:30]}; "
+                            f"sent (head) {[(lab, it) for lab, it in cand][:40]}",
+                    "expected": str(musts[lo:lo + 40])[:500], "observed": str(got[lo:lo + 40])[:500]}
     if res["stream_threads"] > 1:
         return {"key": "two-stream-threads", "what": f"{res['stream_threads']} stream threads are alive at the end of the session",
                 "expected": "1", "observed": str(res["stream_threads"])}
@@ -925,7 +1086,7 @@ def session_check(script):
         v["script"] = script
         v["case"] = "session " + script["kind"]
     dis = None
-    if not res.get("failure"):
+    if not res.get("failure") and res.get("log") is not None:
         line, tags = session_trace(script, res)
         try:
             mo = common.driver_run([line])[0]
@@ -971,9 +1132,38 @@ BACKLOG_SCRIPT = {"kind": "inflight", "layout": [U32], "init": [True], "flags": 
                                       {"flags": 0, "smp": [[0, 0]]}, {"flags": 0, "smp": [[0, 1], [0, 1]]}]], ["quiesce"]]}
 
 
+# a channel enabled while the stream runs; the device streams it at once and acknowledges afterwards (C08-r4m1)
+ENRACE_SCRIPT = {"kind": "enable-race", "layout": [U32, U32], "init": [False, False], "flags": 3, "small": False, "events": [
+    ["sub", 0], ["sub", 1], ["en", [0], False], ["start"], ["frames", [{"flags": 0, "smp": [[0, 1]]}]], ["quiesce"],
+    ["arm", [{"flags": 0, "smp": [[1, 10], [1, 11], [0, 2]]}]], ["en", [1], True],
+    ["frames", [{"flags": 0, "smp": [[0, 3], [1, 12]]}]], ["quiesce"]]}
+# more frames in one burst than any plausible bound on the stream-frame queue (R4-B-H1)
+LONG_SCRIPT = {"kind": "long", "layout": [U32], "init": [False], "flags": 3, "small": False, "events": [
+    ["sub", 0], ["en", [0], False], ["start"], ["burst", 2100, [0], 1000], ["quiesce"]]}
+LONG2_SCRIPT = {"kind": "long", "layout": [U32, (2, 2, 1)], "init": [True, False], "flags": 1, "small": False, "events": [
+    ["sub", 0], ["sub", 1], ["en", [1], False], ["start"], ["burst", 300, [0, 1], 1000], ["quiesce"], ["sub", 0],
+    ["stall", 1.2], ["burst", 2050, [1, 0], 5000], ["quiesce"], ["unsub", 0], ["burst", 100, [0], 9000], ["quiesce"]]}
+# overflow-flagged frames without samples between ordinary ones (C08-r4m2)
+OVF_EMPTY_SCRIPT = {"kind": "identical", "layout": [U32, U32], "init": [True, True], "flags": 1, "small": False, "events": [
+    ["sub", 0], ["sub", 0], ["sub", 1], ["start"],
+    ["frames", [{"flags": 0, "smp": [[0, 1], [1, 50], [0, 2]]}, {"flags": 1, "smp": [[0, 3]]}, {"flags": 0, "smp": []},
+                {"flags": 0, "smp": [[1, 51], [1, 52]]}, {"flags": 1, "smp": []}, {"flags": 0, "smp": [[0, 4], [1, 53], [0, 5]]},
+                {"flags": 0, "smp": [[0, 6]]}]], ["quiesce"]]}
+FIXED_SCRIPTS = [R3M1_SCRIPT, R3M2_SCRIPT, BACKLOG_SCRIPT, ENRACE_SCRIPT, OVF_EMPTY_SCRIPT, LONG_SCRIPT, LONG2_SCRIPT]
+
+
 # ----------------------------------------------------------------------- schedules: concurrent unsubscribe
 
 def concurrent_unsub(seed):
+    """an application thread unsubscribes (and subscribes) WHILE the stream thread is delivering a frame, under
+    pre-emption at every lock / queue / link operation.  Steering uses only what an application can see: the app thread
+    waits until the first subscriber queue of the channel (never unsubscribed) has received a new group — the fan-out
+    of that frame is then in progress — and then runs against the stream thread under the seeded scheduler.
+    Judged at the subscriber queues only:
+      * a queue subscribed throughout holds every sample the device sent, in order;
+      * an unsubscribed queue holds a gap-free prefix, and NOTHING is put on it after `stream_unsub` returned;
+      * a queue subscribed meanwhile holds a gap-free run that ends with the last sample sent and contains everything
+        sent after `stream_sub` returned."""
     import random
     import vsim
     import refdev
@@ -983,53 +1173,87 @@ def concurrent_unsub(seed):
         from nxslib.nxscope import NxscopeHandler
         from nxslib.proto.parse import Parser
         r = random.Random(seed)
-        chans = [dict(en=False, type=6, vdim=1, div=0, mlen=0, name="c0")]
-        dev = refdev.RefDevice(chans, flags=3)
+        chans = [dict(en=False, type=6, vdim=1, div=0, mlen=0, name="c0"), dict(en=False, type=6, vdim=1, div=0, mlen=0, name="c1")]
+        dev = refdev.RefDevice(chans, flags=r.choice([3, 3, 1]))
         link = refdev.make_link(sim, dev)
         nx = NxscopeHandler(link, Parser())
         nx.connect()
         nx.ch_enable([0])
-        qs = [nx.stream_sub(0) for _ in range(8)]
+        # fan-out order of channel 0: the gate queue first, then leaving and staying queues interleaved
+        roles = ["gate"] + [r.choice(["gone", "stay"]) for _ in range(r.randrange(3, 8))] + ["gone", "stay"]
+        qs = [nx.stream_sub(0) for _ in roles]
+        other = nx.stream_sub(1)                      # a queue of a channel that never streams
         nx.stream_start()
-        gone = list(range(6))
+        gone = [k for k, role in enumerate(roles) if role == "gone"]
+        r.shuffle(gone)
+        sent = []
+        at_return = {}                                # queue -> number of groups on it when stream_unsub returned
+        late = []                                     # (queue, samples sent when stream_sub returned)
+        nframes = 12 + 3 * len(gone)
 
         def app():
+            seen = 0
             for k in gone:
-                vsim.vsleep(r.choice([0.0, 0.001, 0.002, 0.003]))
+                # the fan-out of a new frame has begun: the gate queue got its group
+                sim.block(lambda: qs[0].qsize() > seen, 0.5, "app-gate")
+                seen = qs[0].qsize()
+                for _ in range(r.randrange(0, 3)):
+                    sim.yield_("app")
+                if r.random() < 0.3:
+                    q = nx.stream_sub(0)
+                    late.append((q, len(sent)))
                 nx.stream_unsub(qs[k])
+                at_return[k] = qs[k].qsize()
         t = vsim.VThread(target=app, name="app")
         t.start()
-        sent = []
-        for _ in range(30):
+        for _ in range(nframes):
             sent.append(dev.stream_cntr)
             dev.stream_tick()
-            vsim.vsleep(r.choice([0.0, 0.001]))
+            vsim.vsleep(r.choice([0.0, 0.001, 0.001]))
         t.join()
         vsim.vsleep(3.0)
-        got = []
-        for q in qs:
-            vals = []
+
+        def drain(q):
+            ngroups, vals = q.qsize(), []
             while not q.empty():
                 vals += [int(x.data[0]) for x in q.get_nowait()]
-            got.append(vals)
+            return ngroups, vals
+        got = [drain(q) for q in qs]
+        res.update(sent=sent, got=got, roles=roles, at_return=at_return, late=[(drain(q), k) for q, k in late],
+                   other=drain(other))
         nx.disconnect()
-        res.update(sent=sent, got=got, gone=gone)
 
     rr, sim = vsim.run_sim(scenario, seed=seed, preempt=True, real_limit=30.0)
+    case = f"vsim preempt seed={seed}"
     if isinstance(rr, BaseException) or sim.errors:
         return {"key": "concurrent-delivery", "seed": seed, "what": "concurrent sub/unsub while streaming failed: " + repr(rr)
-                + repr([(a, repr(b)) for a, b, _ in sim.errors]), "expected": "-", "observed": "-", "case": f"vsim preempt seed={seed}"}
-    for k, vals in enumerate(res["got"]):
-        want = res["sent"]
-        if k in res["gone"]:
-            ok = vals == want[:len(vals)]            # a prefix: gap-free until the unsubscription
-        else:
-            ok = vals == want
-        if not ok:
-            return {"key": "concurrent-delivery", "seed": seed, "case": f"vsim preempt seed={seed}",
-                    "what": f"queue {k} ({'unsubscribed meanwhile' if k in res['gone'] else 'subscribed throughout'}) received {vals}, "
-                            f"device sent {want} while queues {res['gone']} were being unsubscribed concurrently",
-                    "expected": str(want), "observed": str(vals)}
+                + repr([(a, repr(b)) for a, b, _ in sim.errors]), "expected": "-", "observed": "-", "case": case}
+    want = res["sent"]
+    setting = (f"one frame per sample value {want[0]}..{want[-1]} of channel 0; fan-out order of the subscriber queues "
+               f"{list(enumerate(res['roles']))}; the 'gone' queues are unsubscribed by a second application thread while frames "
+               f"are being delivered (scheduler seed {seed})")
+
+    def bad(what, exp, obs):
+        return {"key": "concurrent-delivery", "seed": seed, "case": case, "what": what + "; " + setting, "expected": str(exp),
+                "observed": str(obs)}
+    for k, (ngroups, vals) in enumerate(res["got"]):
+        role = res["roles"][k]
+        if role != "gone" and vals != want:
+            return bad(f"queue {k} (subscribed throughout) received {vals}, the device sent {want}", want, vals)
+        if role == "gone":
+            if vals != want[:len(vals)]:
+                return bad(f"queue {k} (unsubscribed meanwhile) received {vals}: not a gap-free prefix of what the device sent {want}",
+                           want, vals)
+            if k in res["at_return"] and ngroups != res["at_return"][k]:
+                return bad(f"queue {k} held {res['at_return'][k]} groups when stream_unsub(queue {k}) returned and {ngroups} at the end: "
+                           f"samples {vals[res['at_return'][k]:]} were delivered to an unsubscribed queue", res["at_return"][k], ngroups)
+    for j, ((ngroups, vals), k0) in enumerate(res["late"]):
+        tail = want[len(want) - len(vals):] if vals else []
+        if vals != tail or len(vals) < len(want) - k0:
+            return bad(f"a queue subscribed when {k0} samples had been sent received {vals}: not a gap-free run up to the last sample "
+                       f"that contains every sample sent after stream_sub returned ({want[k0:]})", want[k0:], vals)
+    if res["other"][1]:
+        return bad(f"the queue of channel 1 (never streamed) received {res['other'][1]}", [], res["other"][1])
     return None
 
 
@@ -1046,7 +1270,10 @@ class C08(Prop):
             "executed with the REAL stream thread under the virtual-time runtime; queue contents (groups), subscriber lists, "
             "overflow counter, thread-dead flag, frames still waiting and raising calls compared with the model. "
             "B: the same with real payloads over random layouts (18 standard types, user types, vdim, mlen). "
-            "C (extra_checks): whole sessions against the reference device, trace replayed through the model. "
+            "C (extra_checks): whole sessions against the reference device (incl. bursts of > 2000 frames, a device streaming a "
+            "newly enabled channel before its ACK), trace observed on the library's own objects and replayed through the model. "
+            "D (extra_checks): pre-emptive schedules, unsubscribe / subscribe while a frame is being delivered, judged at the "
+            "subscriber queues after stream_unsub returned. "
             "distinct = distinct line; non-trivial = history with at least one delivered group")
     assumptions = ["lock-level atomicity of sub/unsub and the fan-out (both under the queue lock: C12 lock table); "
                    "pre-emption inside a critical section and queue.Queue internals are outside the model",
@@ -1072,6 +1299,15 @@ class C08(Prop):
             init = [rng.random() < 0.5 for _ in range(n)]
             evs = gen_events(rng, n, init, rng.randrange(1, 16), None, wire=(layout, user))
             yield f"fan wire {sg.layout_str(layout)} {sg.user_str(user)} {bitstr(init)} {';'.join(evs) or '-'}", "wire"
+        for it in range(80 if T else 14):
+            # text channels (CHAR): NUL padding, bytes that are not valid UTF-8 (R4-B latent false alarm)
+            layout = [(18, rng.choice([1, 2, 3, 4, 6]), rng.choice([0, 0, 1])) for _ in range(rng.choice([1, 1, 2]))]
+            if rng.random() < 0.4:
+                layout.append((rng.choice([2, 6, 10]), 1, 0))
+            n = len(layout)
+            init = [rng.random() < 0.7 for _ in range(n)]
+            evs = gen_events(rng, n, init, rng.randrange(2, 12), None, wire=(layout, {}))
+            yield f"fan wire {sg.layout_str(layout)} - {bitstr(init)} {';'.join(evs) or '-'}", "wire-text"
         # the historical defect F9 and neighbours; the reviewer's histories
         for n in (1, 2, 3):
             one = "1" * n
@@ -1125,13 +1361,16 @@ class C08(Prop):
             values, mode = value_source(rng)
             yield f"fan sys {bitstr(init)} {';'.join(gen_events(rng, n, init, rng.randrange(4, 40), values))}", "search"
 
-    def sessions(self, rng, count, ev=None):
-        """run `count` generated sessions + the fixed ones; -> (violations, disagreements)"""
+    def sessions(self, rng, count, ev=None, long_too=True):
+        """run `count` generated sessions + the fixed ones (two of them bursts of > 2000 frames); -> (violations,
+        disagreements).  long_too=False: no GENERATED session of kind 'long' (quick tier: time)"""
         viol, dis = [], []
-        scripts = [R3M1_SCRIPT, R3M2_SCRIPT, BACKLOG_SCRIPT]
+        scripts = list(FIXED_SCRIPTS)
         kinds = {}
         for _ in range(count):
             s = gen_session(rng)
+            while s["kind"] == "long" and not long_too:
+                s = gen_session(rng)
             if rng.random() < 0.5:
                 s["chunk_seed"] = rng.randrange(1, 1 << 20)
             scripts.append(s)
@@ -1170,9 +1409,9 @@ class C08(Prop):
     def extra_checks(self, rng, tier, ev):
         """layer C + schedules"""
         T = tier == "thorough"
-        viol, dis = self.sessions(rng, 150 if T else 24, ev)
+        viol, dis = self.sessions(rng, 150 if T else 24, ev, long_too=T)
         # schedules: unsubscribe concurrently with the fan-out, pre-emption at every lock / queue operation
-        nseeds = 400 if T else 40
+        nseeds = 300 if T else 16         # a seed exposes a missing / too narrow queue lock with probability ~0.75
         base = rng.randrange(1 << 20)
         for k in range(nseeds):
             v = concurrent_unsub(base + k)
